@@ -5,6 +5,8 @@ import (
 	"testing"
 
 	"go.opentelemetry.io/otel/baggage"
+	ibaggage "go.opentelemetry.io/otel/internal/baggage"
+	"go.opentelemetry.io/otel/propagation"
 	"go.opentelemetry.io/otel/verif/internal/vk"
 	"pgregory.net/rapid"
 )
@@ -12,11 +14,49 @@ import (
 // Op is one step of an edit sequence. Indices are taken modulo the number
 // of values / contexts that exist when the step runs.
 type Op struct {
-	Kind string  `json:"op"`            // set | setzero | delete | store | load | without | scribble | zero
+	Kind string  `json:"op"`            // set | setzero | delete | store | load | without | scribble | zero | setfrom | rebuild | reparse | propagate | hook
 	On   int     `json:"on"`            // value operated on
-	Ctx  int     `json:"ctx"`           // store / without: parent context (-1 = Background); load: context read
+	Ctx  int     `json:"ctx"`           // store / without / propagate / hook: parent context (-1 = Background); load: context read
 	M    AMember `json:"m"`             // set: the member
-	Key  string  `json:"key,omitempty"` // delete: the key
+	Key  string  `json:"key,omitempty"` // delete: the key; setfrom: the key read from value Src
+	Src  int     `json:"src,omitempty"` // setfrom: the value the member is read from
+	Hook int     `json:"hook,omitempty"`
+}
+
+// The hooks internal/baggage/context.go offers to the OpenTracing bridge.
+// Hook (op "hook"): 1 a get hook, 2 a set hook, 3 both, 4 both and then the
+// set hook removed again (nil), 0 a nil get hook. The hooks installed here
+// pass through what they are given.
+func withHooks(parent context.Context, kind int) context.Context {
+	get := func(_ context.Context, l ibaggage.List) ibaggage.List { return l }
+	set := func(ctx context.Context, _ ibaggage.List) context.Context { return ctx }
+	switch kind {
+	case 1:
+		return ibaggage.ContextWithGetHook(parent, get)
+	case 2:
+		return ibaggage.ContextWithSetHook(parent, set)
+	case 3:
+		return ibaggage.ContextWithSetHook(ibaggage.ContextWithGetHook(parent, get), set)
+	case 4:
+		return ibaggage.ContextWithSetHook(ibaggage.ContextWithSetHook(ibaggage.ContextWithGetHook(parent, get), set), nil)
+	}
+	return ibaggage.ContextWithGetHook(parent, nil)
+}
+
+// allTokenKeys: every member key and property key of the model is a W3C
+// token, so that Baggage.String() leaves nothing out.
+func allTokenKeys(m model) bool {
+	for k, mm := range m {
+		if !isToken(k) {
+			return false
+		}
+		for _, p := range mm.Props {
+			if !isToken(p.K) {
+				return false
+			}
+		}
+	}
+	return true
 }
 
 // CaseC is an initial baggage and a sequence of steps.
@@ -26,7 +66,7 @@ type CaseC struct {
 }
 
 // SetMember places no restriction on keys beyond what NewMemberRaw accepts.
-var editKeys = []string{"a", "b", "c", "k.1", "é", "a b", "%41", "😀", "key=,;"}
+var editKeys = []string{"a", "b", "c", "k.1", "é", "a b", "%41", "😀", "key=,;", "a", "b", "c", "k.1"}
 
 func genEditMember() *rapid.Generator[AMember] {
 	return rapid.Custom(func(t *rapid.T) AMember {
@@ -99,6 +139,30 @@ func genC(t *rapid.T) CaseC {
 		"scribble": func(t *rapid.T) {
 			c.Ops = append(c.Ops, Op{Kind: "scribble", On: val(t)})
 		},
+		"setfrom": func(t *rapid.T) { // a member read from one value is set on another
+			key := "a"
+			if len(used) > 0 {
+				key = rapid.SampledFrom(used).Draw(t, "key")
+			}
+			c.Ops = append(c.Ops, Op{Kind: "setfrom", On: val(t), Src: val(t), Key: key})
+			nVals++
+		},
+		"rebuild": func(t *rapid.T) { // New(b.Members()...)
+			c.Ops = append(c.Ops, Op{Kind: "rebuild", On: val(t)})
+			nVals++
+		},
+		"reparse": func(t *rapid.T) { // Parse(b.String())
+			c.Ops = append(c.Ops, Op{Kind: "reparse", On: val(t)})
+			nVals++
+		},
+		"propagate": func(t *rapid.T) { // Inject the value, Extract into a context derived from an earlier one
+			c.Ops = append(c.Ops, Op{Kind: "propagate", On: val(t), Ctx: ctx(t)})
+			nCtxs++
+		},
+		"hook": func(t *rapid.T) {
+			c.Ops = append(c.Ops, Op{Kind: "hook", Ctx: ctx(t), Hook: rapid.IntRange(0, 4).Draw(t, "hook")})
+			nCtxs++
+		},
 	})
 	return c
 }
@@ -141,6 +205,13 @@ func runC(c CaseC) ([]vk.Violation, vk.Info) {
 	shared := []bool{false} // the value is (or was read from) the baggage of some context
 	var ctxs []context.Context
 	var ctxModels []model
+	var hooked []bool // the context (or one it derives from) went through a hook installer
+	parentHooked := func(i int) bool {
+		if i < 0 || len(ctxs) == 0 {
+			return false
+		}
+		return hooked[idx(i, len(ctxs))]
+	}
 
 	parentOf := func(i int) context.Context {
 		if i < 0 || len(ctxs) == 0 {
@@ -160,7 +231,7 @@ func runC(c CaseC) ([]vk.Violation, vk.Info) {
 			if !got.equal(models[i]) {
 				kind := "earlier_value_changed"
 				switch {
-				case i == len(values)-1 && i != receiver && (op.Kind == "set" || op.Kind == "delete" || op.Kind == "setzero" || op.Kind == "load"):
+				case i == len(values)-1 && i != receiver && (op.Kind == "set" || op.Kind == "delete" || op.Kind == "setzero" || op.Kind == "load" || op.Kind == "setfrom" || op.Kind == "rebuild" || op.Kind == "reparse"):
 					kind = "result_differs_from_model"
 				case i == receiver:
 					kind = "receiver_changed"
@@ -226,10 +297,12 @@ func runC(c CaseC) ([]vk.Violation, vk.Info) {
 			editOnShared = editOnShared || (shared[on] && present)
 		case "store":
 			receiver = on
+			ph := parentHooked(op.Ctx)
 			ctxs = append(ctxs, baggage.ContextWithBaggage(parentOf(op.Ctx), values[on]))
-			ctxModels = append(ctxModels, models[on])
+			ctxModels, hooked = append(ctxModels, models[on]), append(hooked, ph)
 			shared[on] = true
 			info.ClassIf(op.Ctx >= 0 && len(ctxs) > 1, "context_chain")
+			info.ClassIf(ph, "store_in_context_with_hooks")
 		case "load":
 			if len(ctxs) == 0 || op.Ctx < 0 {
 				values, models, shared = append(values, baggage.FromContext(context.Background())), append(models, model{}), append(shared, false)
@@ -246,8 +319,87 @@ func runC(c CaseC) ([]vk.Violation, vk.Info) {
 			values, models, shared = append(values, z), append(models, model{}), append(shared, false)
 			info.Class("zero_value_baggage")
 		case "without":
+			ph := parentHooked(op.Ctx)
 			ctxs = append(ctxs, baggage.ContextWithoutBaggage(parentOf(op.Ctx)))
-			ctxModels = append(ctxModels, model{})
+			ctxModels, hooked = append(ctxModels, model{}), append(hooked, ph)
+			info.ClassIf(ph, "without_in_context_with_hooks")
+		case "setfrom":
+			receiver = on
+			src := idx(op.Src, len(values))
+			mm, present := models[src][op.Key]
+			r, err := values[on].SetMember(values[src].Member(op.Key))
+			nm := models[on]
+			if present {
+				if err != nil {
+					bad("setmember_rejects_valid", "step %d: SetMember(values[%d].Member(%q)): %v", step, src, op.Key, err)
+					return vs, info
+				}
+				nm = models[on].clone()
+				nm[op.Key] = mm
+				editOnShared = editOnShared || shared[on]
+			} else if err == nil {
+				// Member of an absent key is documented to be the zero Member
+				bad("zero_member_accepted", "step %d: SetMember(values[%d].Member(%q)) of an absent key returned no error", step, src, op.Key)
+			}
+			values, models, shared = append(values, r), append(models, nm), append(shared, !present && shared[on])
+			info.ClassIf(present, "set_member_read_from_another_value")
+			info.ClassIf(present && shared[src], "set_member_read_from_a_context_held_value")
+		case "rebuild":
+			receiver = on
+			lent := append(make([]baggage.Member, 0, len(models[on])+2), values[on].Members()...)
+			r, err := baggage.New(lent...)
+			for i := range lent {
+				lent[i] = baggage.Member{}
+			}
+			if err != nil {
+				bad("valid_baggage_rejected", "step %d: New(values[%d].Members()...) of %d small members: %v", step, on, len(models[on]), err)
+				return vs, info
+			}
+			values, models, shared = append(values, r), append(models, models[on]), append(shared, false)
+			info.Class("rebuilt_from_members")
+		case "reparse":
+			receiver = on
+			hdr := values[on].String()
+			r, err := baggage.Parse(hdr)
+			if allTokenKeys(models[on]) {
+				if err != nil {
+					bad("own_string_rejected", "step %d: Parse(values[%d].String()) fails: %v; String() = %q", step, on, err, short(hdr))
+					return vs, info
+				}
+				values, models, shared = append(values, r), append(models, models[on]), append(shared, false)
+				info.Class("reparsed_value")
+			} else {
+				// String() leaves out what has no W3C key: the result is taken as it comes
+				got, _ := observe(r)
+				values, models, shared = append(values, r), append(models, got), append(shared, false)
+				info.Class("reparsed_value_with_non_token_keys")
+			}
+		case "propagate":
+			receiver = on
+			carrier := propagation.MapCarrier{}
+			propagation.Baggage{}.Inject(baggage.ContextWithBaggage(context.Background(), values[on]), carrier)
+			nctx := propagation.Baggage{}.Extract(parentOf(op.Ctx), carrier)
+			hooked = append(hooked, parentHooked(op.Ctx))
+			if allTokenKeys(models[on]) && len(models[on]) > 0 {
+				ctxs, ctxModels = append(ctxs, nctx), append(ctxModels, models[on])
+				info.Class("context_from_extract")
+				info.ClassIf(op.Ctx >= 0 && len(ctxs) > 1, "extract_into_derived_context")
+			} else {
+				got, _ := observe(baggage.FromContext(nctx))
+				ctxs, ctxModels = append(ctxs, nctx), append(ctxModels, got)
+				info.Class("context_from_extract_unasserted")
+			}
+		case "hook":
+			// a context derived through the bridge's hook installers: what it
+			// holds at this moment is recorded and must never change
+			parent := parentOf(op.Ctx)
+			nctx := withHooks(parent, op.Hook)
+			hooked = append(hooked, true)
+			got, _ := observe(baggage.FromContext(nctx))
+			pm, _ := observe(baggage.FromContext(parent))
+			ctxs, ctxModels = append(ctxs, nctx), append(ctxModels, got)
+			info.Class("context_with_hooks")
+			info.ClassIf(!got.equal(pm), "hook_installer_changes_baggage")
 		case "scribble":
 			receiver = on
 			v := values[on]
@@ -282,9 +434,10 @@ func TestImmutability(t *testing.T) {
 	vk.Run(t, vk.Spec[CaseC]{
 		Property: "C11", Check: "immutability",
 		Rule: "edit sequences (rapid state machine, ~30 steps) of SetMember / SetMember(zero) / DeleteMember on any earlier value, ContextWithBaggage / ContextWithoutBaggage on Background or an earlier context, FromContext, " +
-			"and overwriting of the slices returned by Members() / Properties(); after every step every value ever produced and the baggage of every context are read through Member / Members / Len and compared with their immutable-map models; " +
+			"SetMember of a Member read from another value, New(b.Members()...), Parse(b.String()), Inject of a value followed by Extract into a context derived from an earlier one, contexts derived through the get / set hook installers of internal/baggage (pass-through hooks, nil hooks), " +
+			"and overwriting of the slices returned by Members() / Properties() or lent to New; after every step every value ever produced and the baggage of every context are read through Member / Members / Len and compared with their immutable-map models; " +
 			"non-trivial = a set or an effective delete is applied to a value that is held by (or was read from) a context; distinct = distinct case encodings",
-		Quick: 6000, Thorough: 60000,
+		Quick: 8000, Thorough: 80000,
 		Gen: genC, Run: runC,
 	})
 }
